@@ -1,6 +1,7 @@
 package gen
 
 import (
+	"fmt"
 	. "verif/jt"
 )
 
@@ -91,6 +92,46 @@ var slotBuilders = []slotBuilder{
 	{"update-replacement", "update", updWith(func(g *Gen, l func() *Node) *Node { return ObjN("name", l(), "nested", ObjN("x", ArrN(l()))) })},
 	{"update-pipeline", "update", updWith(func(g *Gen, l func() *Node) *Node {
 		return ArrN(ObjN("$set", ObjN("v", l())), ObjN("$replaceWith", ObjN("w", ObjN("$ifNull", ArrN(g.Ref(), l())))))
+	})},
+	{"filter-deep-nesting", "find", findWith(func(g *Gen, l func() *Node) *Node {
+		// sub-documents nested beyond the server's 100-level BSON limit counted from the LINE root
+		// (attr.command.filter adds levels of its own), keys deliberately not in sorted order
+		depth := []int{96, 101, 129, 260}[g.R.Intn(4)]
+		inner := ObjN("zeta", l(), "alpha", l(), "mid", ArrN(l(), ObjN("y", l(), "b", l())))
+		for i := depth; i > 0; i-- {
+			if i%25 == 0 {
+				inner = ObjN(fmt.Sprintf("z%d", i), l(), "d", inner, fmt.Sprintf("a%d", i), l())
+			} else {
+				inner = ObjN("d", inner)
+			}
+		}
+		return ObjN("root", inner)
+	})},
+	{"large-arrays", "find", findWith(func(g *Gen, l func() *Node) *Node {
+		// operator arrays and array-valued fields with more than 1 000 / 4 096 members
+		mk := func(n int) *Node {
+			a := ArrN()
+			for i := 0; i < n; i++ {
+				if i < 4 || i >= n-4 || i%97 == 0 {
+					a.Vals = append(a.Vals, l())
+				} else {
+					a.Vals = append(a.Vals, sens(NumN(g.Number()), "num", "cat-large-array"))
+				}
+			}
+			return a
+		}
+		return ObjN(g.Field(), ObjN(g.pick("$in", "$nin", "$all"), mk(1001+g.R.Intn(300))), "tags", mk(1030+g.R.Intn(100)))
+	})},
+	{"match-large-in", "aggregate", aggWith(func(g *Gen, l func() *Node) []*Node {
+		a := ArrN()
+		for i, n := 0, 1002+g.R.Intn(200); i < n; i++ {
+			if i < 3 || i >= n-3 {
+				a.Vals = append(a.Vals, l())
+			} else {
+				a.Vals = append(a.Vals, sens(NumN(g.Number()), "num", "cat-large-array"))
+			}
+		}
+		return []*Node{ObjN("$match", ObjN(g.Field(), ObjN("$in", a)))}
 	})},
 	{"update-pipeline-constants", "update", func(g *Gen, l func() *Node, coll, db string) *Node {
 		// pipeline-style update statement with its constants document `c` (values reachable as $$k in the pipeline)
